@@ -106,6 +106,12 @@ class Model:
         self.union(i("int"), self.none)
         self.union(i("bool"), i("int"))
         self.union(self.tup(i("int"), i("int")), self.none)
+        # unions nested inside a non-union type, and unions of such types (the strict and the lenient relation differ there)
+        self.tup(i("str"))
+        self.tup(self.union(i("int"), i("str")))
+        self.union(self.tup(i("int")), self.none)
+        self.tup(self.union(i("A"), i("X")), i("B"))
+        self.union(self.tup(i("A"), i("B")), self.none)
 
     # -------------------------------------------------------------- queries (interpreted from source)
     def query(self, name, a, b):
